@@ -41,6 +41,7 @@ LAYOUTS = {
     "unicode-sep": "s = 'a\u2028b'\nx = 1\ny = 2\n",
     "fs-char": "s = 'a\x1cb'\nx = 1\n",
     "indented": "if x:\n    y = 1\n    z = (2 +\n         3)\n",
+    "short-last-line": "def f():\n    if x:\n        a = 1\ny\n",
 }
 
 
